@@ -115,16 +115,22 @@ def global_cost_iv(points, reduced, metric):
     hi_sum *= (1 + REL)
     total = n + nseg - 1
     if metric == 'r2':
-        ym = float(np.mean(y))
-        tss = float(np.sum(np.square(y - ym)))
+        # TSS about the mean: tss(m) = tss(m*) + n (m - m*)^2, so any evaluation whose mean is within dm of
+        # the exactly rounded mean m* lands in [tss*, tss* + n dm^2] (plus term rounding).  dm bounds the error
+        # of any reasonable summation (naive, pairwise or compensated) of n values: n u max|y|.
+        n_y = len(y)
+        ym = math.fsum(y.tolist()) / n_y
+        tss = math.fsum(((y - ym) ** 2).tolist())
         # tss == 0 exactly iff all y equal (then every evaluation gives exactly 0)
         if np.all(y == y[0]):
             lo = 1.0 - hi_sum
             hi = 1.0 - lo_sum
         else:
-            trel = 1e-9  # cancellation in the mean / squares of nearly constant curves
-            t_lo = tss * (1 - trel)
-            t_hi = tss * (1 + trel)
+            dm = 2.0 * n_y * U * float(np.max(np.abs(y)))
+            # the centred values y - m carry rounding of their own: (|y - m| + dm + u|y|)^2 per term
+            dev = np.abs(y - ym)
+            t_lo = max(math.fsum((np.maximum(dev - dm - 2 * U * np.abs(y), 0.0) ** 2).tolist()) * (1 - 1e-12), 0.0)
+            t_hi = math.fsum(((dev + dm + 2 * U * np.abs(y)) ** 2).tolist()) * (1 + 1e-12)
             if t_lo <= 0:
                 return 0.0, math.inf
             q_lo = lo_sum / t_hi
